@@ -194,12 +194,14 @@ namespace igris
 
         void erase(iterator first, iterator last)
         {
+            if (first == last)
+                return;
             size_t sz = last - first;
-            for (size_t i = 0; i < sz; ++i)
+            iterator newend = std::move(last, end(), first);
+            for (iterator it = newend; it != end(); ++it)
             {
-                igris::destructor(first + i);
+                igris::destructor(it);
             }
-            std::move(last, end(), first);
             m_size -= sz;
         }
 
